@@ -195,6 +195,16 @@ pub fn run(ctx: &mut Ctx) {
             let desc = format!("transformation #{which} ext={ext} conv={conv}\n base={base:?}\n  new={t:?}");
             judge(ctx, &a, &b, desc, &which.to_string());
         }
+        // the same abstract recipe spelled with blanks and block comments at every place the spelling allows (between the
+        // parts of numbers, around separators, inside names) and lines wrapped: many insertions at once
+        for k in 0..2 {
+            let t = wf::spell(&r, &Style { seed: rng.next(), spaces: true, comments: true, wrap: k == 1, crlf: false, unit_space: i % 4 == 3 });
+            if t == base { continue; }
+            ctx.count("respelled-with-filler");
+            let Some(a) = recipe_case(ctx, &t, ext, conv) else { continue };
+            let desc = format!("respelling with blanks and block comments ext={ext} conv={conv}\n base={base:?}\n  new={t:?}");
+            judge(ctx, &a, &b, desc, "respell");
+        }
     }
     boundary_witnesses(ctx);
     // CRLF on arbitrary inputs without backslash and without a lone CR
